@@ -31,12 +31,12 @@ Section Sys.
     unfold step_status. rewrite Ed. rewrite (step_at (step mkdig s o) o d Ed), (step_at s o d Ed).
     destruct (s d) as [A B] eqn:E. cbn [fst snd] in *.
     destruct Ho as [-> | ->]; cbn [dstep fst snd].
-    - destruct (transfer_idempotent mkdig mkdig_inj false A B IA IB) as [H1 H2]. cbn zeta in *.
-      destruct (transfer mkdig false A B) as [q st]. cbn [fst snd] in *.
-      destruct (transfer mkdig false A q) as [q' st']. cbn [fst snd] in *. subst q'. auto.
-    - destruct (transfer_idempotent mkdig mkdig_inj true B A IB IA) as [H1 H2]. cbn zeta in *.
-      destruct (transfer mkdig true B A) as [q st]. cbn [fst snd] in *.
-      destruct (transfer mkdig true B q) as [q' st']. cbn [fst snd] in *. subst q'. auto.
+    - destruct (transfer_idempotent mkdig mkdig_inj None A B IA IB) as [H1 H2]. cbn zeta in *.
+      destruct (transfer mkdig None A B) as [q st]. cbn [fst snd] in *.
+      destruct (transfer mkdig None A q) as [q' st']. cbn [fst snd] in *. subst q'. auto.
+    - destruct (transfer_idempotent mkdig mkdig_inj (Some default_policy) B A IB IA) as [H1 H2]. cbn zeta in *.
+      destruct (transfer mkdig (Some default_policy) B A) as [q st]. cbn [fst snd] in *.
+      destruct (transfer mkdig (Some default_policy) B q) as [q' st']. cbn [fst snd] in *. subst q'. auto.
   Qed.
 
   (* peers that show the same current revision: nothing is missing either way, Push and Pull are the identity *)
@@ -51,8 +51,8 @@ Section Sys.
     destruct (reachable_inv ops d) as [IA IB]. fold s in IA, IB.
     unfold step_status. cbn [op_doc]. rewrite (step_at s (Push d) d eq_refl), (step_at s (Pull d) d eq_refl).
     destruct (s d) as [A B] eqn:E. cbn [fst snd dstep] in *.
-    destruct (same_current_no_transfer mkdig false A B c IA IB CA CB) as [R1 T1].
-    destruct (same_current_no_transfer mkdig true B A c IB IA CB CA) as [R2 T2].
+    destruct (same_current_no_transfer mkdig None A B c IA IB CA CB) as [R1 T1].
+    destruct (same_current_no_transfer mkdig (Some default_policy) B A c IB IA CB CA) as [R2 T2].
     rewrite T1, T2. cbn [fst snd]. repeat split; auto.
   Qed.
 End Sys.
